@@ -4,3 +4,4 @@ pub mod align;
 pub mod rule;
 pub mod rule_bool;
 pub mod rule_env;
+pub mod template;
